@@ -9,7 +9,7 @@
        for i := 0; i < datagramCount; i++ {
          buf := messages[i].Buffers[0][:messages[i].N]
          ip := UnknownSource; if local address is not a unix address { ip = getIP(messages[i].Addr) }
-         dgs[i] = &Datagram{IP: ip, Msg: buf, Timestamp: now, DoneFunc: put retBuffers[i] back}
+         dgs[i] = &Datagram{IP: ip, RMsg: buf, Timestamp: now, DoneFunc: put retBuffers[i] back}
          retBuffers[i] = pool.Get(); messages[i].Buffers = *retBuffers[i]
        }
        out <- dgs }
@@ -34,21 +34,21 @@ Definition buf_size : N := 65535.            (* packetSizeUDP *)
 
 (* the net.Addr ReadBatch reported *)
 Inductive addr :=
-| AUdp (ip : str)     (* *net.UDPAddr; [ip] = a.IP.String() *)
-| AOther              (* any other implementation of net.Addr *)
-| ANil.
+| RaUdp (ip : str)     (* *net.UDPAddr; [ip] = a.IP.String() *)
+| RaOther              (* any other implementation of net.Addr *)
+| RaNil.
 
 Definition unknown_source : str := [].       (* gostatsd.UnknownSource = "" *)
 
 (* getIP: the type switch *)
 Definition get_ip (a : addr) : str :=
-  match a with AUdp ip => ip | AOther | ANil => unknown_source end.
+  match a with RaUdp ip => ip | RaOther | RaNil => unknown_source end.
 
-Record message := Msg { mg_data : str; mg_addr : addr }.   (* N = length mg_data *)
+Record message := RMsg { mg_data : str; mg_addr : addr }.   (* N = length mg_data *)
 
 Inductive read_result :=
-| RErr                                   (* ReadBatch returned an error *)
-| ROk (now : Z) (ms : list message).     (* datagramCount = length ms; NanoNow() = now *)
+| RdErr                                   (* ReadBatch returned an error *)
+| RdOk (now : Z) (ms : list message).     (* datagramCount = length ms; NanoNow() = now *)
 
 Record datagram := DG { d_ip : str; d_msg : str; d_ts : Z; d_buf : N }.
 Definition batch := list (option datagram).
@@ -124,8 +124,8 @@ Definition step (c : config) (st : status) (l : label) : option status :=
   | Crashed => Some Crashed
   | Running s =>
       match l with
-      | LRead RErr => Some (Running s)
-      | LRead (ROk now ms) =>
+      | LRead RdErr => Some (Running s)
+      | LRead (RdOk now ms) =>
           match fill c now ms (r_slots s) (r_pool s) with
           | FPanic => Some Crashed
           | FOk bt sl p =>
@@ -170,8 +170,8 @@ Definition ingest (pf : str -> pfres) (ns : str) (c : config) (batch_size : nat)
 (* what ReadBatch may return when given [batch_size] messages with buffers of [buf_size] bytes *)
 Definition wf_read (batch_size : nat) (r : read_result) : Prop :=
   match r with
-  | RErr => True
-  | ROk _ ms =>
+  | RdErr => True
+  | RdOk _ ms =>
       (length ms <= batch_size)%nat
       /\ Forall (fun m => N.of_nat (length (mg_data m)) <= buf_size) ms
   end.
@@ -184,8 +184,8 @@ Definition seen (d : datagram) : str * str * Z := (d_ip d, d_msg d, d_ts d).
 
 Definition expected_of (c : config) (r : read_result) : list (list (str * str * Z)) :=
   match r with
-  | RErr => []
-  | ROk now ms =>
+  | RdErr => []
+  | RdOk now ms =>
       [map (fun m => (if c_local_unix c then unknown_source else get_ip (mg_addr m), mg_data m, now)) ms]
   end.
 
@@ -201,4 +201,4 @@ Definition current (local_unix : bool) : config := Cfg false local_unix.
 Definition seeded (local_unix : bool) : config := Cfg true local_unix.
 
 Definition read_data (r : read_result) : list str :=
-  match r with RErr => [] | ROk _ ms => map mg_data ms end.
+  match r with RdErr => [] | RdOk _ ms => map mg_data ms end.
